@@ -1228,6 +1228,56 @@ def cli_work(shard, nshards, payload):
                     t.violation(f"cli-earlier-source-not-generated:{name}", case)
                 import shutil
                 shutil.rmtree(d, ignore_errors=True)
+        # accepted documents translated again after an edit that changes only what lands in the header (or after
+        # the header was deleted): both files must be the translation of the *current* source
+        regen = []
+        for cid, (si, gi, fi) in enumerate(combos(tier)):
+            if not fi and len(gi) == 1 and (tier == "thorough" or tuple(SUBJECTS[si]) in QUICK_PAIR_SUBJECTS):
+                regen.append((cid, si, gi))
+        for n, (cid, si, gi) in enumerate(regen):
+            if n % nshards != shard:
+                continue
+            sj, kinds, root = instantiate(si, gi, ())
+            v1 = qml.render(root)
+            v2 = v1.replace("srcS.text", "tgt.text").replace("srcI.value", "srcI.maximum").replace("srcB.checked", "srcB.enabled").replace('"H', '"HX')
+            if v2 == v1:
+                continue
+            want = {}
+            for label, text in (("v1", v1), ("v2", v2)):
+                r = vd.job({"id": cid, "source": text, "modes": ["generate"], "type_name": "Doc"})["modes"]["generate"]
+                want[label] = r if vc.accepted(r) else None
+            if not want["v1"] or not want["v2"]:
+                continue
+            for scen in ("edit", "delete-header", "edit-back"):
+                d = os.path.join(scratch, f"r{cid}_{scen}")
+                os.makedirs(d)
+                steps = {"edit": [v1, v2], "delete-header": [v1, None, v1], "edit-back": [v1, v2, v1]}[scen]
+                cur = None
+                ok = True
+                for text in steps:
+                    if text is None:
+                        os.remove(os.path.join(d, "uisupport_doc.h"))
+                        continue
+                    cur = text
+                    with open(os.path.join(d, "Doc.qml"), "w") as f:
+                        f.write(text)
+                    rc, err = run_cli(d, ["Doc.qml"])
+                    t.inc("cli_runs")
+                    if rc != 0:
+                        t.violation("cli-regenerate:accepted-document-failed", {"cli": scen, "kinds": [k.name for k in kinds], "source": text, "stderr": err[-400:]})
+                        ok = False
+                        break
+                t.inc("cli_scenario:regenerate-" + scen)
+                if ok:
+                    w = want["v1"] if cur == v1 else want["v2"]
+                    for fn, key in (("doc.ui", "ui"), ("uisupport_doc.h", "header")):
+                        path = os.path.join(d, fn)
+                        if not os.path.exists(path) or open(path).read() != w[key]:
+                            t.violation(f"cli-regenerate:{fn.split('.')[-1]}-is-not-the-translation-of-the-current-source:{scen}",
+                                        {"cli": "regenerate", "scenario": scen, "kinds": [k.name for k in kinds], "source": cur,
+                                         "previous_source": v1 if cur == v2 else v2, "file": fn, "exists": os.path.exists(path)})
+                import shutil
+                shutil.rmtree(d, ignore_errors=True)
     return t
 
 
@@ -1283,6 +1333,10 @@ def replay(path):
     r = json.load(open(path))
     case = r["case"]
     t = vc.Tally()
+    if case.get("cli") == "regenerate" or "scenario" in case:
+        print(json.dumps({k: case[k] for k in case if k != "source"}, indent=1))
+        print("re-run the check: regeneration scenarios are cheap")
+        return 0
     if "cli" in case:
         si, gi, fi = case["combo"]
         with vc.scratch_dir("c04replay") as d:
